@@ -38,7 +38,7 @@ impl SystemBinder {
         // the composed specification keeps the approval table in the gateway; id / ownership self-checks of the
         // service binding are the business of the ITS instances
         if let Some(o) = its.as_object_mut() {
-            for k in ["appr", "idcheck", "tokOwner", "tokSelfId"] {
+            for k in ["appr", "idcheck", "wiring", "tokOwner", "tokSelfId"] {
                 o.remove(k);
             }
         }
